@@ -376,3 +376,8 @@ func (TokList) TokenName() string   { return "list" }
 func (TokBytes) TokenName() string  { return "bytes" }
 func (TokMap) TokenName() string    { return "map" }
 func (TokStruct) TokenName() string { return "struct" }
+
+// Tag8 is a Shape that is a byte array held by VALUE in the interface (registered as Tag8).
+type Tag8 [8]byte
+
+func (Tag8) ShapeName() string { return "tag8" }
